@@ -4,6 +4,7 @@ import (
 	"encoding/json"
 	"os"
 	"path/filepath"
+	"time"
 
 	"verif/sim"
 )
@@ -39,7 +40,11 @@ func shrinkCrash(cfg *propCfg, b *build, rf replayFile) replayFile {
 		rf = explicit
 		rf.OrigTape = len(vals)
 	}
+	deadline := time.Now().Add(45 * time.Second)
 	still := func(vals []uint64) bool {
+		if time.Now().After(deadline) {
+			return false
+		}
 		c := rf
 		c.Tape = vals
 		v, _ := replayOnce(cfg, b, &c)
